@@ -1265,8 +1265,26 @@ class Extractor:
             ifile = parts[1] if len(parts) > 1 and parts[1] else a['file']
             icls = parts[2] if len(parts) > 2 else a.get('class')
             inner, k = self.inline_calls(inner, nm, ifile, icls, rep)
-            if k == 0:
-                raise ExtractionError('%s: inline %s never used' % (a['cname'], nm))
+        # automatic inlining of single-return helper methods of the same class that the body calls on the
+        # implicit object (e.g. TimeLine::to_physical_time): keeps the extracted text compilable when a change
+        # starts using another small helper of the class
+        if a.get('class') and kind != 'free' and blk.kind != 'region' and a.get('autoinline', '1') == '1':
+            known = set(blk.callmap) | set(x.split('@')[0] for x in blk.inlines)
+            for cand in sorted(set(re.findall(r'(?<![\w.>:])([a-z_]\w*)\s*\(', inner))):
+                if cand in known or cand in ('if', 'while', 'for', 'switch', 'return', 'sizeof') or cand.startswith('cm_') or cand == a['name']:
+                    continue
+                try:
+                    cdefs = find_definitions(src, cand, a['class'], 'method')
+                    if len(cdefs) != 1:
+                        continue
+                    cbody = src.text[cdefs[0]['body_lb'] + 1:cdefs[0]['body_rb']].strip()
+                    if not re.match(r'^return\b[^;]*;$', cbody, re.S):
+                        continue
+                    inner, k = self.inline_calls(inner, cand, a['file'], a['class'], rep)
+                    if k:
+                        rep['rules']['auto_inline:%s' % cand] = k
+                except ExtractionError:
+                    continue
         # operator[] on CoordinateVector-valued data members
         for nm in sorted(self.cv_members):
             inner, k = re.subn(r'(?<![\w.>])' + re.escape(nm) + r'\s*\[', nm + '.c[', inner)
